@@ -291,6 +291,7 @@ def run_pair(job):
                                  "same_wiring_other_host_services", "same_layout_other_host_order", "same_scenario")
         for si_, sched in enumerate(scheds):
             live = {}            # slot -> (eid, scn id, env, step counter)
+            cur_layout = None    # layout of the most recently built environment (what the class-level attributes hold)
             for (kind, slot, s, foreign, kf) in sched:
                 before = {sl: snap(v[2]) for sl, v in live.items() if sl != slot}
                 rec = recs[s]
@@ -338,7 +339,11 @@ def run_pair(job):
                 last_layout = layouts[s] if kind == "create" else None
                 victims = []
                 if kind == "create":
-                    victims = [sl for sl, v in live.items() if sl != slot and layouts[v[1]] != layouts[s]]
+                    # D9: environments whose layout differs from the one just built lose their decoding, and
+                    # environments that had lost it (their layout differed from the one built BEFORE) get it back
+                    victims = [sl for sl, v in live.items() if sl != slot and
+                               (layouts[v[1]] != layouts[s] or (cur_layout is not None and layouts[v[1]] != cur_layout))]
+                    cur_layout = layouts[s]
                 # the event has been written already: append the C19 measurement as its own event
                 rec.emit(dict(ev="c19", env=ev["env"], of=ev["i"], others_changed=changed,
                               others_decode_changed=dec_changed, kf=bool(kf), victims=victims, kind=kind))
